@@ -21,7 +21,7 @@ COUNTS = {
     "codec-enc": (4000, 60000),
     "wsend": (6000, 120000),
     "wsend-long": (3, 12),
-    "wrecv": (6000, 120000),
+    "wrecv": (4000, 120000),
     "wrecv-long": (2, 10),
     "win": (6000, 100000),
 }
@@ -45,13 +45,25 @@ def is_nontrivial(suite, case, impl):
         return " r " in (" " + impl + " ") and " s" in (" " + impl)
     if suite == "win":
         return case.count(",") >= 1
+    if suite in ("wsend-long", "wrecv-long"):
+        return True
     return True
 
+W_ASSUME = ["virtual clock hook (cfg rs_tftpd_verif) supplies time inside Worker::send_file; receive results are scripted",
+            "regular-file reads are short only at end of file; write_all writes everything or fails (OS contract)"]
 PROPS = {
+    "C01": {"suites": ["wsend"], "monitor": True, "title": "download fidelity", "assumptions": W_ASSUME},
+    "C02": {"suites": ["wrecv"], "monitor": True, "title": "upload fidelity", "assumptions": W_ASSUME},
+    "C07": {"suites": ["wsend", "wrecv"], "monitor": True, "title": "termination", "assumptions": W_ASSUME},
+    "C08": {"suites": ["wsend", "wrecv"], "monitor": True, "title": "window flow control", "assumptions": W_ASSUME},
     "C10": {"suites": ["codec-dec"], "monitor": True,
             "title": "decoder totality"},
     "C11": {"suites": ["codec-enc", "codec-dec"], "monitor": True,
             "title": "codec round trip and wire layout"},
+    "C15": {"suites": ["wsend-long", "wrecv-long"], "monitor": True, "title": "block-number wrap-around", "assumptions": W_ASSUME},
+    "C16": {"suites": ["wsend", "wrecv"], "monitor": True, "title": "duplicate-packets mode", "assumptions": W_ASSUME},
+    "C18": {"suites": ["win"], "monitor": True, "title": "window buffer contract",
+            "assumptions": ["files are real temp files opened read-only / created / read+append as in the unit tests"]},
 }
 
 def shrink_case(prop, case, still_fails, budget=80):
@@ -59,6 +71,8 @@ def shrink_case(prop, case, still_fails, budget=80):
     toks = case.split(" ")
     if toks[0] not in ("send", "recv") or toks[-1] == "-":
         return case
+    if len(case) > 200000:
+        budget = min(budget, 10)
     evs = toks[-1].split(",")
     changed = True
     while changed and budget > 0:
